@@ -443,12 +443,12 @@ mod tests {
     }
 }
 
-/// Checks that the parent of `path` exists; called with the lock held so that the check and the
-/// insertion that follows it are one atomic step
+/// Checks that the parent of `path` is an existing directory; called with the lock held so that
+/// the check and the insertion that follows it are one atomic step
 fn ensure_has_parent(files: &HashMap<String, AsyncMemoryFile>, path: &str) -> VfsResult<()> {
     if let Some(index) = path.rfind('/') {
-        if files.contains_key(&path[..index]) {
-            return Ok(());
+        if let Some(parent) = files.get(&path[..index]) {
+            return ensure_dir(parent);
         }
     }
     Err(VfsErrorKind::Other("Parent path does not exist".into()).into())
